@@ -132,43 +132,43 @@ def run(ctx):
     rem = ctx.seed % 9973
     parts = {}
 
-    # ---- (1) explicit strings: precedence / associativity lemmas -------------------------------------
+    # ---- (1)+(2) the four enumerations, side by side (counted in the main thread) -------------------------------
+    #   shapes: explicit strings, precedence / associativity lemmas
+    #   ops:    all trees of depth <= 2 over the overloaded operators.  LightLemmas stays TRUE here also in the thorough
+    #           tier (PartialOK / all print modes on the ~35 000 emitted trees rather than on all 406 125: ~10 ms each)
+    #   signs:  the rounding operators with negated leaves (one symbol: negative non-integer operands at depth 2)
+    #   gram:   all trees of depth <= 2 over the operators of the grammar, ** and sqrt included
+    light = "FALSE" if thorough else "TRUE"
+    big = 3600 if thorough else 900
+    jobs = dict(
+        shapes=dict(cfg=os.path.join(SYM, "SymDimMC_shapes.cfg"), workers=2, timeout=600,
+                    what="ShapeMeaning / ShapeReprint / constant-level lemmas"),
+        ops=dict(cfg=_cfg(ctx.scratch, "SymDimMC_ops.cfg", "ops_v.cfg", PerClass=20 if thorough else 2, SampleRem=rem,
+                          LightLemmas="TRUE"), workers=NCPU, timeout=big,
+                 what="operator trees: ValueTable RoundTripTree DesugarOK RoundTripValue PartialOK NormalForm Integral"),
+        signs=dict(cfg=_cfg(ctx.scratch, "SymDimMC_signs.cfg", "signs_v.cfg", PerClass=12 if thorough else 2, SampleRem=rem,
+                            ClosedBoost=64 if thorough else 8, LightLemmas=light), workers=max(2, NCPU // 4), timeout=big,
+                   what="signs: ValueTable RoundTripTree DesugarOK RoundTripValue PartialOK NormalForm Integral"),
+        gram=dict(cfg=_cfg(ctx.scratch, "SymDimMC_gram.cfg", "gram_v.cfg", PerClass=12 if thorough else 2, SampleRem=rem,
+                           LightLemmas=light), workers=max(2, NCPU // 3), timeout=big,
+                  what="grammar trees: ValueTable RoundTripTree RoundTripValue PartialOK NormalForm Integral"),
+    )
     t0 = time.time()
-    res = _tlc(ctx, MC, os.path.join(SYM, "SymDimMC_shapes.cfg"), tag="shapes", deadlock=False, timeout=600, workers=4)
-    _design_ok(res, "ShapeMeaning / ShapeReprint / constant-level lemmas")
-    envs3, shapes = _records(res, "shapes")
-    parts["tlc_shapes"] = round(time.time() - t0, 1)
-
-    # ---- (2) all trees of depth <= 2: operator part and grammar part -------------------------------------
-    t0 = time.time()
-    # LightLemmas stays TRUE for the operator trees (PartialOK / all print modes on the ~35 000 emitted trees of the
-    # thorough tier rather than on all 406 125: ~10 ms each); the grammar enumeration runs them on every tree
-    cfg = _cfg(ctx.scratch, "SymDimMC_ops.cfg", "ops_v.cfg", PerClass=20 if thorough else 2, SampleRem=rem,
-               LightLemmas="TRUE")
-    res = _tlc(ctx, MC, cfg, tag="ops", deadlock=False, timeout=3600 if thorough else 900)
-    _design_ok(res, "operator trees: ValueTable RoundTripTree DesugarOK RoundTripValue PartialOK NormalForm Integral")
-    envs2, trees = _records(res, "ops")
-    n_enum_ops = res.distinct
-    parts["tlc_ops"] = round(time.time() - t0, 1)
-
-    # the rounding operators with negated leaves (one symbol: negative non-integer operands at depth 2)
-    t0 = time.time()
-    cfg = _cfg(ctx.scratch, "SymDimMC_signs.cfg", "signs_v.cfg", PerClass=12 if thorough else 2, SampleRem=rem,
-               ClosedBoost=64 if thorough else 8, LightLemmas="FALSE" if thorough else "TRUE")
-    res = _tlc(ctx, MC, cfg, tag="signs", deadlock=False, timeout=3600 if thorough else 900)
-    _design_ok(res, "signs: ValueTable RoundTripTree DesugarOK RoundTripValue PartialOK NormalForm Integral")
-    envs1, strees = _records(res, "signs")
-    n_enum_signs = res.distinct
-    parts["tlc_signs"] = round(time.time() - t0, 1)
-
-    t0 = time.time()
-    cfg = _cfg(ctx.scratch, "SymDimMC_gram.cfg", "gram_v.cfg", PerClass=12 if thorough else 2, SampleRem=rem,
-               LightLemmas="FALSE" if thorough else "TRUE")
-    res = _tlc(ctx, MC, cfg, tag="gram", deadlock=False, timeout=3600 if thorough else 900)
-    _design_ok(res, "grammar trees: RoundTripTree RoundTripValue PartialOK NormalForm Integral")
-    envs2g, gtrees = _records(res, "gram")
-    n_enum_gram = res.distinct
-    parts["tlc_gram"] = round(time.time() - t0, 1)
+    with concurrent.futures.ThreadPoolExecutor(len(jobs)) as ex:
+        futs = {k: ex.submit(_tlc, ctx, MC, j["cfg"], tag=k, deadlock=False, timeout=j["timeout"], workers=j["workers"],
+                             count=False) for k, j in jobs.items()}
+        results = {k: f.result() for k, f in futs.items()}
+    for k, res in results.items():
+        ctx.states += res.distinct
+        ctx.transitions += res.generated
+        _design_ok(res, jobs[k]["what"])
+        parts["tlc_" + k] = round(res.wall_s, 1)
+    parts["tlc_enumerations_side_by_side"] = round(time.time() - t0, 1)
+    n_enum_ops, n_enum_signs, n_enum_gram = results["ops"].distinct, results["signs"].distinct, results["gram"].distinct
+    envs3, shapes = _records(results["shapes"], "shapes")
+    envs2, trees = _records(results["ops"], "ops")
+    envs1, strees = _records(results["signs"], "signs")
+    envs2g, gtrees = _records(results["gram"], "gram")
     if envs2g != envs2:
         raise MachineryError("the two enumerations use different binding tables")
 
